@@ -186,6 +186,9 @@ class Inliner:
     def resolve(self, call, modname, clsname):
         f = call.func
         if isinstance(f, ast.Name):
+            fn = getattr(self, 'local_defs', {}).get(f.id)      # a function defined inside the function being processed
+            if fn is not None:
+                return fn, None
             fn = self.helpers.get(modname, {}).get(f.id)
             if fn is not None:
                 return fn, None
@@ -469,7 +472,21 @@ def inline_project(trees, exports):
                     if isinstance(b, ast.FunctionDef):
                         b.body = recover_comprehensions(split_conditional_statements(unroll_constant_loops(b.body, mglobals)))
         ast.fix_missing_locations(tree)
-    if not any(helpers.values()) and not any(any(n.startswith('_') and not n.startswith('__') for n in m) for m in methods.values()):
+    def nested_defs(fn):
+        out = {}
+        for x in fn.body:
+            if isinstance(x, ast.FunctionDef) and not x.decorator_list:
+                # only when the name is bound once in the enclosing function
+                stores = sum(1 for y in ast.walk(fn) if (isinstance(y, ast.Name) and y.id == x.name and isinstance(y.ctx, ast.Store))
+                             or (isinstance(y, ast.FunctionDef) and y.name == x.name and y is not fn))
+                if stores == 1:
+                    out[x.name] = copy.deepcopy(x)
+        return out
+    has_nested = any(isinstance(y, ast.FunctionDef) for tree in trees.values() for st in tree.body
+                     if isinstance(st, (ast.FunctionDef, ast.ClassDef)) for y in ast.walk(st) if y is not st and
+                     not (isinstance(st, ast.ClassDef) and y in st.body))
+    if not any(helpers.values()) and not has_nested and \
+            not any(any(n.startswith('_') and not n.startswith('__') for n in m) for m in methods.values()):
         return 0
     # keep pristine copies of the helpers: they are inlined from the original text
     helpers = {m: {k: copy.deepcopy(v) for k, v in d.items()} for m, d in helpers.items()}
@@ -478,10 +495,14 @@ def inline_project(trees, exports):
     for mod, tree in trees.items():
         for st in tree.body:
             if isinstance(st, ast.FunctionDef):
+                inl.local_defs = nested_defs(st)
                 st.body = inl.block(st.body, mod, None, 0, helpers.get(mod, {}).get(st.name))
+                inl.local_defs = {}
             elif isinstance(st, ast.ClassDef):
                 for b in st.body:
                     if isinstance(b, ast.FunctionDef):
+                        inl.local_defs = nested_defs(b)
                         b.body = inl.block(b.body, mod, st.name, 0, methods.get((mod, st.name), {}).get(b.name))
+                        inl.local_defs = {}
         ast.fix_missing_locations(tree)
     return inl.inlined
